@@ -1,6 +1,7 @@
 (* C16 — property theorems only. Each is closed by [exact] of a lemma of Proofs.v. *)
 From Coq Require Import List String NArith.
 From Verif Require Import Base.Util C16.Model C16.Proofs.
+From Verif Require C16.Manager C16.ManagerProofs C16.MCheck.
 From Verif Require gen.Gen_average.
 Import ListNotations.
 Local Open Scope N_scope.
@@ -30,6 +31,45 @@ Print Assumptions C16_equal_counts_one_to_one.
 Theorem C16_average_is_source : forall s t, Gen_average.average s t = Model.average s t.
 Proof. exact average_gen_eq. Qed.
 Print Assumptions C16_average_is_source.
+
+(* ---- the manager path: startReadChannel / forwardChannel / waitChannel / forwardMsg (C16.Manager) ----
+   For all channel counts and EVERY schedule of offers and goroutine steps (a forwardChannel goroutine takes the lock, a rendezvous
+   on the forward channel, forwardMsg's non-blocking send, a waiting handler takes the lock; labels that are not enabled are
+   skipped, so every label list is a schedule), at every instant (any prefix ls1, any continuation ls2): every key has one value,
+   no value serves more than avg keys, an assignment once made stays, every assigned key has its handler and a waiting handler's
+   key is not assigned.  (That a waiting handler is eventually served is a liveness statement about the Go scheduler and is not
+   claimed.) *)
+Theorem C16_manager_every_schedule : forall s t ls1 ls2,
+  let g1 := Manager.run Manager.cfg_now s t ls1 in let g2 := Manager.run Manager.cfg_now s t (ls1 ++ ls2) in
+  functional (Manager.g_cm g2) /\ quota_ok (Manager.g_cm g2) /\ avg (Manager.g_cm g2) = avg (new s t)
+  /\ (forall k v, alookup (tbl (Manager.g_cm g1)) k = Some v -> alookup (tbl (Manager.g_cm g2)) k = Some v)
+  /\ (forall k, In k (map fst (tbl (Manager.g_cm g2))) -> In k (map Manager.h_key (Manager.g_hs g2)))
+  /\ (forall k, In k (map Manager.w_key (Manager.g_ws g2)) -> ~ In k (map fst (tbl (Manager.g_cm g2)))).
+Proof. exact ManagerProofs.manager_now. Qed.
+Print Assumptions C16_manager_every_schedule.
+
+(* the three earlier variants of the code do not have the property: the schedules were found by the check and replayed against
+   the real code before the repairs 58caa9f, 5bb7150 and d23be7c *)
+Theorem C16_manager_promise_ignored_refuted :
+  ManagerProofs.over_quota (Manager.run ManagerProofs.cfg_v1 3 6 ManagerProofs.sched_v1) "s0" = true.
+Proof. exact ManagerProofs.v1_refuted. Qed.
+Print Assumptions C16_manager_promise_ignored_refuted.
+Theorem C16_manager_key_side_by_name_refuted :
+  alookup (tbl (Manager.g_cm (Manager.run ManagerProofs.cfg_v2 2 4 ManagerProofs.sched_v2a))) "d0" = Some "d0"%string
+  /\ alookup (tbl (Manager.g_cm (Manager.run ManagerProofs.cfg_v2 2 4 (ManagerProofs.sched_v2a ++ ManagerProofs.sched_v2b)))) "d0" = Some "d1"%string
+  /\ ManagerProofs.over_quota (Manager.run ManagerProofs.cfg_v2 2 4 (ManagerProofs.sched_v2a ++ ManagerProofs.sched_v2b)) "d1" = true.
+Proof. exact ManagerProofs.v2_refuted. Qed.
+Print Assumptions C16_manager_key_side_by_name_refuted.
+Theorem C16_manager_unguarded_waiter_refuted :
+  ManagerProofs.over_quota (Manager.run ManagerProofs.cfg_v3 3 3 ManagerProofs.sched_v3) "t1" = true.
+Proof. exact ManagerProofs.v3_refuted. Qed.
+Print Assumptions C16_manager_unguarded_waiter_refuted.
+
+(* non-vacuity of the manager theorem: a schedule in which a handler waits, is promised a channel and takes it *)
+Example C16_manager_nonvacuous :
+  let g := Manager.run Manager.cfg_now 3 3 ManagerProofs.sched_v3 in
+  tbl (Manager.g_cm g) = [("s0", "t0"); ("s1", "t1")]%string /\ List.length (Manager.g_ws g) = 1%nat.
+Proof. vm_compute. split; reflexivity. Qed.
 
 (* non-vacuity: a run that fills a channel and then refuses a further key *)
 Example C16_nonvacuous :
